@@ -452,6 +452,14 @@ def check_compare(dim):
                  u * u - MultiVector({0: m[0, 0] + m[1, 1]}, space)]
     if dim >= 3:
         pool += [(e[0] ^ e[1]) * e[2], e[0] * (e[1] ^ e[2]), e[2] | (e[0] ^ e[2])]
+    # symbolic (expression) coefficients: equal trees as coefficients compare equal, different ones do not
+    import pymbolic.primitives as prim
+    xs, ys = prim.Variable("x"), prim.Variable("y")
+    pool += [MultiVector({0: xs}, space), MultiVector({0: prim.Variable("x")}, space), MultiVector({0: ys}, space),
+             MultiVector({0: prim.Sum((xs, 1))}, space), MultiVector({0: prim.Sum((prim.Variable("x"), 1))}, space)]
+    if dim >= 1:
+        pool += [MultiVector({0: xs, 1: ys}, space), MultiVector({1: prim.Variable("y"), 0: prim.Variable("x")}, space),
+                 MultiVector({0: ys, 1: xs}, space), MultiVector({1: xs}, space)]
 
     def coeffs(v):
         return {k_: c for k_, c in v.data.items() if c != 0}
